@@ -55,6 +55,8 @@ where
 			let mut uninit = Box::new(MaybeUninit::<yaml_parser_t>::uninit());
 			if yaml_parser_initialize(uninit.as_mut_ptr()).ok {
 				parser = Box::from_raw(Box::into_raw(uninit).cast());
+				#[cfg(feature = "verif")]
+				crate::verif::trace::log(1, 0, 0, 0);
 			} else {
 				panic!("out of memory for yaml_parser_initialize");
 			}
@@ -73,6 +75,8 @@ where
 			bouncer: vec![],
 			error: None,
 		}));
+		#[cfg(feature = "verif")]
+		crate::verif::trace::log(2, 0, 0, 0);
 
 		// SAFETY: Again, we assume libyaml is implemented correctly. We know
 		// the parser is initialized because we didn't panic above.
@@ -173,6 +177,8 @@ where
 				// As far as the *size_read write, we're again trusting libyaml
 				// to pass valid arguments. Note that libyaml's EOF condition is
 				// the same as Rust's: report a successful 0 byte read.
+				#[cfg(feature = "verif")]
+				crate::verif::trace::log(3, read_len as u64, buffer_size as u64, read_state.bouncer.len() as u64);
 				unsafe {
 					ptr::copy_nonoverlapping(read_state.bouncer.as_ptr(), buffer, read_len);
 					*size_read = read_len as u64;
@@ -181,10 +187,14 @@ where
 				READ_SUCCESS
 			}
 			Ok(_) => {
+				#[cfg(feature = "verif")]
+				crate::verif::trace::log(4, 0, buffer_size as u64, 0);
 				read_state.error = Some(io::Error::new(io::ErrorKind::Other, "misbehaving reader"));
 				READ_FAILURE
 			}
 			Err(err) => {
+				#[cfg(feature = "verif")]
+				crate::verif::trace::log(4, u64::MAX, buffer_size as u64, 0);
 				read_state.error = Some(err);
 				READ_FAILURE
 			}
@@ -203,7 +213,11 @@ where
 		// the parser before the read state, so it should have no chance to
 		// access freed read state memory.
 		unsafe {
+			#[cfg(feature = "verif")]
+			crate::verif::trace::log(5, 0, 0, 0);
 			yaml_parser_delete(&mut *self.parser);
+			#[cfg(feature = "verif")]
+			crate::verif::trace::log(6, 0, 0, 0);
 			drop(Box::from_raw(self.read_state));
 		}
 	}
@@ -219,6 +233,8 @@ impl Event {
 		// simply drop the MaybeUninit when we return the error.
 		unsafe {
 			if yaml_parser_parse(parser, event.as_mut_ptr()).ok {
+				#[cfg(feature = "verif")]
+				crate::verif::trace::log(7, 0, 0, 0);
 				Ok(Event(event.assume_init()))
 			} else {
 				Err(ParserError::new(parser))
@@ -240,6 +256,8 @@ impl Drop for Event {
 		// SAFETY: Event::parse_next returns an error if libyaml fails to
 		// initialize the event, so we know it's logically valid here.
 		unsafe {
+			#[cfg(feature = "verif")]
+			crate::verif::trace::log(8, 0, 0, 0);
 			yaml_event_delete(&mut self.0);
 		};
 	}
